@@ -69,7 +69,7 @@ def gen_cases(ctx):
                 yield {"ops": [copy.deepcopy(ALPHA[k]) for k in combo], "exh": True}
             i += 1
     rng = ctx.grng("rand")
-    for _ in range(ctx.budget(1300, 50000)):
+    for _ in range(ctx.budget(1000, 50000)):
         ops = [rand_op(rng) for _ in range(rng.choice([5, 10, 20, 40]))]
         if ctx.take(i):
             yield {"ops": ops, "proc": rng.random() < 0.03}
@@ -88,7 +88,25 @@ def read_cache_file(path):
 
 def observe_session(p, ids):
     """What one session reports (JSON-able)."""
-    out = {"iter": sorted(j.id for j in p), "len": len(p)}
+    out = {}
+    # abbreviated ids: resolution must follow the workspace, not whatever the cache happens to hold
+    # (asked first: a fresh session then knows only what the persistent cache file told it)
+    out["prefix"] = {}
+    for sp in UNIVERSE:
+        full = model.model_id(sp)
+        for n in (1, 2, 3):
+            q = full[:n]
+            if q in out["prefix"]:
+                continue
+            try:
+                out["prefix"][q] = "job:" + p.open_job(id=q).id
+            except KeyError:
+                out["prefix"][q] = "KeyError"
+            except LookupError:
+                out["prefix"][q] = "LookupError"
+            except Exception as e:  # noqa
+                out["prefix"][q] = "ERR:" + type(e).__name__
+    out.update({"iter": sorted(j.id for j in p), "len": len(p)})
     out["find"] = []
     for flt in BATTERY:
         try:
@@ -131,6 +149,13 @@ def expected_obs(m):
         exp["byid"][jid] = [sp, sp]
         exp["contains"][jid] = True
     exp["member"] = {model.model_id(sp): model.model_id(sp) in m for sp in UNIVERSE}
+    exp["prefix"] = {}
+    for sp in UNIVERSE:
+        full = model.model_id(sp)
+        for n in (1, 2, 3):
+            q = full[:n]
+            hits = [i for i in m if i.startswith(q)]
+            exp["prefix"][q] = "job:" + hits[0] if len(hits) == 1 else ("LookupError" if hits else "KeyError")
     return exp
 
 
@@ -151,6 +176,9 @@ def compare_obs(obs, exp):
             bad.append(("byid-statepoint", jid, g, e[0]))
         if obs["contains"].get(jid) is not True:
             bad.append(("contains", jid))
+    if obs.get("prefix") != exp["prefix"]:
+        diff = {q: (obs.get("prefix", {}).get(q), e) for q, e in exp["prefix"].items() if obs.get("prefix", {}).get(q) != e}
+        bad.append(("abbreviated-id", diff))
     if obs["member"] != exp["member"]:
         bad.append(("membership-by-statepoint", obs["member"], exp["member"]))
     return bad
